@@ -766,7 +766,7 @@ class OpenAPI(Specification):
         method_meta = utils.get_meta(method.method)
         annotations: OpenApiMeta = method_meta.get('openapi_spec', {})
 
-        errors = annotations.get('errors', UNSET) or []
+        errors = list(annotations.get('errors', UNSET) or [])
         for schema_extractor in self._schema_extractors:
             errors.extend(schema_extractor.extract_errors(method.method) or [])
 
